@@ -1,6 +1,7 @@
 /- Helper lemmas for Props/C03.lean and Props/C10.lean: format_end_token (Model/EndToken.lean). -/
 import StyluaModel.Model.EndToken
 import StyluaModel.Lemmas.Trivia
+import StyluaModel.Lemmas.Semi
 namespace StyluaModel.EndTokenLemmas
 open StyluaModel.Trivia StyluaModel.EndToken StyluaModel.TriviaLemmas
 
@@ -56,3 +57,83 @@ theorem scan_clean (l : List Out) : tailClean (scan false l) = true := by
     | space => simpa [scan, tailClean] using ih
     | comment k t => simp [scan, tailClean]
 end StyluaModel.EndTokenLemmas
+
+namespace StyluaModel.LineSafe
+open StyluaModel.Trivia StyluaModel.Semi StyluaModel.EndToken
+
+/-- line safety read from the back: `nn` = the element that follows (in forward order) is a line ending -/
+def srAux : (nn : Bool) → List Out → Bool
+  | _, [] => true
+  | nn, .comment .line _ :: r => nn && srAux false r
+  | _, .newline :: r => srAux true r
+  | _, _ :: r => srAux false r
+
+/-- forward line safety of `l ++ tail`, in terms of the reversed prefix -/
+theorem sr_spec (l : List Out) : ∀ (tail : List Out),
+    lineSafe (l.reverse ++ tail) = (srAux (match tail with | .newline :: _ => true | _ => false) l && lineSafe tail) := by
+  induction l with
+  | nil => intro tail; simp [srAux]
+  | cons x r ih =>
+    intro tail
+    simp only [List.reverse_cons, List.append_assoc, List.singleton_append]
+    rw [ih (x :: tail)]
+    cases x with
+    | newline => simp [srAux, lineSafe_newline]
+    | indent => simp [srAux, lineSafe_indent]
+    | space => simp [srAux, lineSafe_space]
+    | comment k t =>
+      cases k with
+      | line =>
+        cases tail with
+        | nil => simp [srAux, lineSafe]
+        | cons y ys => cases y <;> simp [srAux, lineSafe, Bool.and_comm, Bool.and_assoc, Bool.and_left_comm]
+      | block lvl => simp [srAux, lineSafe]
+      | shebang => simp [srAux, lineSafe]
+
+theorem sr_rev (l : List Out) : lineSafe l.reverse = srAux false l := by
+  have := sr_spec l []
+  simpa [lineSafe] using this
+
+/-- dropping line endings that do not follow a comment keeps line safety -/
+theorem scan_sr (l : List Out) : ∀ stop nn, srAux nn l = true → srAux nn (scan stop l) = true := by
+  induction l with
+  | nil => intro _ _ h; simpa [scan] using h
+  | cons x r ih =>
+    intro stop nn h
+    cases x with
+    | newline =>
+      simp only [srAux] at h
+      simp only [scan]
+      split
+      · -- dropped: the rest starts with no comment, so what followed does not matter
+        rename_i hc
+        have hnc : headIsComment r = false := by
+          cases hh : headIsComment r <;> simp_all
+        cases r with
+        | nil => simp [scan, srAux]
+        | cons y ys =>
+          cases y with
+          | comment k t => simp [headIsComment] at hnc
+          | newline => exact ih stop nn (by simpa [srAux] using h)
+          | indent => exact ih stop nn (by simpa [srAux] using h)
+          | space => exact ih stop nn (by simpa [srAux] using h)
+      · simp only [srAux]; exact ih stop true h
+    | indent => simp only [srAux] at h; simp only [scan, srAux]; exact ih stop false h
+    | space => simp only [srAux] at h; simp only [scan, srAux]; exact ih stop false h
+    | comment k t =>
+      cases k with
+      | line =>
+        simp only [srAux, Bool.and_eq_true] at h
+        simp only [scan, srAux, Bool.and_eq_true]
+        exact ⟨h.1, ih true false h.2⟩
+      | block lvl => simp only [srAux] at h; simp only [scan, srAux]; exact ih true false h
+      | shebang => simp only [srAux] at h; simp only [scan, srAux]; exact ih true false h
+
+/-- the leading trivia of a formatted closing token is line-safe: `end` is never swallowed by a comment in front of it -/
+theorem endLeading_safe (eol : List Char) (lead : List Triv) : lineSafe (endLeading eol lead) = true := by
+  unfold endLeading
+  rw [sr_rev]
+  apply scan_sr
+  rw [← sr_rev, List.reverse_reverse]
+  exact load_leading_safe eol lead
+end StyluaModel.LineSafe
